@@ -6,6 +6,7 @@ mark / delete / maintain / allocator maintenance / save / load (own, foreign,
 permuted, synthetic data with ids above the counter).  TLC validates every
 recorded trace against SaveLoad_L0."""
 import itertools
+import json
 import os
 import random
 
@@ -329,6 +330,38 @@ def traces(prop, tier, seed):
         viol.append(ent)
     res["viol"] = viol
     res["samples"] = [scripts[0], scripts[-1]]
+    try:
+        res["drift"] = marker_drift(G.dedupe_prefixes(tl), workdir)
+    except C.ToolError as e:
+        res["drift"] = {"error": str(e)[-300:]}
     C.sh(["rm", "-rf", workdir])
     C.cache_put(key, res)
     return [res]
+
+
+def marker_drift(hists, workdir, limit=2500):
+    """impl -> L1: TLC re-executes the emitted histories on Marker_L1 and compares the complete world content,
+    marking results and serialised records with what the real code recorded (informational, never an alarm)"""
+    if len(hists) > limit:
+        step = len(hists) / float(limit)
+        hists = [hists[int(i * step)] for i in range(limit)]
+    os.makedirs(workdir, exist_ok=True)
+    sp = os.path.join(workdir, "mdrift_scripts.ndjson")
+    hp = os.path.join(workdir, "mdrift_harness.ndjson")
+    tp = os.path.join(workdir, "mdrift_trace.ndjson")
+    with open(sp, "w") as f, open(hp, "w") as g:
+        for i, h in enumerate(hists):
+            tid = 79000000 + i
+            f.write(json.dumps({"tid": tid, "ops": h}) + "\n")
+            # (json for every save: the recorded `data` is format independent anyway)
+            g.write(json.dumps(conv_marker_script(h, tid)) + "\n")
+    r = C.sh([C.BIN, "sl", hp, tp], timeout=600)
+    if r.returncode != 0:
+        return {"error": "harness exit %d" % r.returncode}
+    cfg = os.path.join(workdir, "mdrift.cfg")
+    C.write_cfg(cfg, "SPECIFICATION DSpec\nCONSTANTS\n  MaxIdx = 3\nINVARIANT Verdict\nCHECK_DEADLOCK FALSE\n")
+    t = C.run_tlc("Marker_Drift.tla", cfg, workers=1, timeout=600, env={"SCRIPTS": sp, "TRACE": tp}, deque=True, xmx="3g")
+    d = C.parse_printed(t.stdout, "DRIFT")
+    if not d:
+        return {"error": t.stdout[-300:]}
+    return d[-1]
